@@ -280,6 +280,72 @@ def harness_b(E, ctx, aux):
 
 
 # ---------------------------------------------------------------------------
+# (b2) names present in a graph handed to SCFG() are never handed out again
+
+RES_KINDS = ["synth_asign", "loop", "control", "a_block_1", "head"]
+RES_IDX = [0, 1, 9, 10, 11, 99, 100]
+RES_HOLDERS = ["block", "region", "assignment-variable", "branch-variable", "nested-region", "shared-generator-subgraph"]
+
+
+def run_reservation(desc):
+    from numba_scfg.core.datastructures.scfg import SCFG, NameGenerator
+    from numba_scfg.core.datastructures.basic_block import BasicBlock, RegionBlock, SyntheticAssignment, SyntheticHead
+
+    kind, idx, holder, req = desc["kindname"], desc["idx"], desc["holder"], desc["request"]
+    fails = []
+    shapes = {"block": f"{kind}_block_{idx}", "region": f"{kind}_region_{idx}", "var": f"__scfg_{kind}_var_{idx}__"}
+    gen = None
+    if holder == "block":
+        name = shapes["block"]
+        g = SCFG({name: BasicBlock(name)})
+    elif holder == "region":
+        name = shapes["region"]
+        g = SCFG({name: RegionBlock(name=name, kind="loop", header="h", exiting="h", subregion=SCFG({"h": BasicBlock("h")}))})
+    elif holder == "nested-region":
+        name = shapes["region"]
+        gen = NameGenerator()
+        inner = SCFG({name: RegionBlock(name=name, kind="loop", header="h", exiting="h", subregion=SCFG({"h": BasicBlock("h")}, name_gen=gen))}, name_gen=gen)
+        g = SCFG({"outer_x": RegionBlock(name="outer_x", kind="tail", header=name, exiting=name, subregion=inner)}, name_gen=gen)
+    elif holder == "assignment-variable":
+        name = shapes["var"]
+        g = SCFG({"a": SyntheticAssignment(name="a", variable_assignment={name: 1})})
+    elif holder == "branch-variable":
+        name = shapes["var"]
+        g = SCFG({"a": SyntheticHead(name="a", _jump_targets=("b",), variable=name, branch_value_table={0: "b"}), "b": BasicBlock("b")})
+    else:  # a sub-graph created later with the shared generator holds the name
+        name = shapes["block"]
+        top = SCFG({"t": BasicBlock("t")})
+        SCFG({name: BasicBlock(name)}, name_gen=top.name_gen)
+        g = top
+    issued = []
+    for _ in range(3):
+        m = {"block": g.name_gen.new_block_name, "region": g.name_gen.new_region_name, "var": g.name_gen.new_var_name}[req]
+        issued.append(m(kind))
+    if name in issued:
+        fails.append({"kind": "reservation", "signature": f"reservation:present-name-issued:{holder}:{req}", "detail": repr((name, issued))})
+    if len(set(issued)) != len(issued):
+        fails.append({"kind": "reservation", "signature": "reservation:name-issued-twice", "detail": repr(issued)})
+    return fails
+
+
+def space_r():
+    k, i, h, r = z3.Int("rk"), z3.Int("ri"), z3.Int("rh"), z3.Int("rr")
+    cs = z3.And(k >= 0, k < len(RES_KINDS), i >= 0, i < len(RES_IDX), h >= 0, h < len(RES_HOLDERS), r >= 0, r < 3)
+    return cs, [h, r], {"k": k, "i": i, "h": h, "r": r}
+
+
+def harness_r(E, ctx, aux):
+    desc = {"kind": "reservation", "kindname": RES_KINDS[E.realize(aux["k"])], "idx": RES_IDX[E.realize(aux["i"])],
+            "holder": RES_HOLDERS[E.realize(aux["h"])], "request": ["block", "region", "var"][E.realize(aux["r"])]}
+    ctx.current = desc
+    ctx.evaluations += 1
+    ctx.nontrivial += 1
+    ctx.sample(desc, cap=1)
+    for f in run_reservation(desc):
+        ctx.fail(f["kind"], f["signature"], desc, f["detail"])
+
+
+# ---------------------------------------------------------------------------
 # (c) histories
 
 SCHEMES = [
@@ -334,13 +400,13 @@ def all_names(g):
 def run_history(desc):
     from numba_scfg.core.datastructures.scfg import SCFG
 
-    names = desc["names"]
+    names = desc.get("names")
     fails = []
 
     def fail(sig, detail):
         fails.append({"kind": "history", "signature": sig, "detail": str(detail)[:300]})
 
-    blocks = {n: make_block(n, s, "basic", i) for i, (n, s) in enumerate(zip(names, desc["succ"]))}
+    blocks = {n: make_block(n, s, "basic", i) for i, (n, s) in enumerate(zip(names or [], desc.get("succ") or []))}
     if desc.get("vars"):
         # one-successor input blocks become assignments to names inside the variable namespace
         from numba_scfg.core.datastructures.basic_block import SyntheticAssignment
@@ -349,10 +415,14 @@ def run_history(desc):
         for n, b in list(blocks.items()):
             if len(b._jump_targets) == 1:
                 blocks[n] = SyntheticAssignment(name=n, _jump_targets=b._jump_targets, variable_assignment={v: 0 for v in taken})
-    g = SCFG(blocks)
+    g = SCFG(blocks) if not desc.get("src") else __import__("numba_scfg.core.datastructures.ast_transforms", fromlist=["AST2SCFG"]).AST2SCFG(desc["src"])
     issued_all = []
     issued_any = False
-    for si, stage in enumerate(STAGES):
+    stages = list(STAGES)
+    if desc.get("partial"):
+        # a partial stage: loops of the outermost level only, then (after the optional reload) the full stage
+        stages = ["join_returns", "restructure_loop_top", "restructure_loop", "restructure_branch"]
+    for si, stage in enumerate(stages):
         if desc["reload_before"] == si:
             try:
                 g, _ = SCFG.from_dict(g.to_dict())
@@ -361,7 +431,12 @@ def run_history(desc):
         before_names, before_vars = all_names(g)
         try:
             with Recorder() as rec:
-                getattr(g, stage)()
+                if stage == "restructure_loop_top":
+                    from numba_scfg.core.transformations import restructure_loop as _rl
+
+                    _rl(g.region)
+                else:
+                    getattr(g, stage)()
         except Exception:
             return fails, issued_any
         tag = ("reloaded:" if 0 <= desc["reload_before"] <= si else "") + stage
@@ -382,9 +457,10 @@ def run_history(desc):
 
 def space_c(N, entry=None):
     f, cubes, aux = s1_space(N, entry=entry)
-    sc, rl, vr = z3.Int("scheme"), z3.Int("reload"), z3.Int("vars")
-    aux["scheme"], aux["reload"], aux["vars"] = sc, rl, vr
-    return z3.And(f, sc >= 0, sc < len(SCHEMES), rl >= -1, rl <= 2, vr >= 0, vr <= 1), [sc, rl, vr, aux["e"]] + (aux["A"][:2] if N >= 4 else []), aux
+    sc, rl, vr, pt = z3.Int("scheme"), z3.Int("reload"), z3.Int("vars"), z3.Int("partial")
+    aux["scheme"], aux["reload"], aux["vars"], aux["partial"] = sc, rl, vr, pt
+    return z3.And(f, sc >= 0, sc < len(SCHEMES), rl >= -1, rl <= 3, vr >= 0, vr <= 1, pt >= 0, pt <= 1, z3.Implies(pt == 0, rl <= 2),
+                  z3.Implies(pt == 1, z3.And(vr == 0, sc <= 1))), [sc, rl, vr, pt, aux["e"]] + (aux["A"][:2] if N >= 4 else []), aux
 
 
 def harness_c(E, ctx, aux):
@@ -392,9 +468,10 @@ def harness_c(E, ctx, aux):
     sc = E.realize(aux["scheme"])
     rl = E.realize(aux["reload"])
     vr = E.realize(aux["vars"])
+    pt = E.realize(aux["partial"])
     N = aux["N"]
     m = {f"b{i}": SCHEMES[sc][i] for i in range(N)}
-    desc = {"kind": "history", "names": [m[n] for n in d["names"]], "succ": [[m[t] for t in s] for s in d["succ"]], "reload_before": rl, "vars": vr}
+    desc = {"kind": "history", "names": [m[n] for n in d["names"]], "succ": [[m[t] for t in s] for s in d["succ"]], "reload_before": rl, "vars": vr, "partial": pt}
     ctx.current = desc
     ctx.evaluations += 1
     fails, issued = run_history(desc)
@@ -411,8 +488,42 @@ def harness_c(E, ctx, aux):
         ctx.fail(f["kind"], f["signature"], desc, f["detail"])
 
 
+def harness_src_for(factory):
+    from vf import s2
+
+    def h(E, ctx, aux):
+        ch = s2.Chooser(E, getattr(ctx, "cube", ()))
+        src = factory(ch).program()
+        for rl in (1, 2):
+            desc = {"kind": "history", "src": src, "reload_before": rl}
+            ctx.current = desc
+            ctx.evaluations += 1
+            try:
+                fails, issued = run_history(desc)
+            except NotImplementedError:
+                continue
+            if issued:
+                ctx.nontrivial += 1
+            seen = set()
+            for f in fails:
+                if f["signature"] not in seen:
+                    seen.add(f["signature"])
+                    ctx.fail(f["kind"], f["signature"], desc, f["detail"])
+    return h
+
+
 def jobs(tier):
+    from vf import s2
+
+    def srcjob(name, factory, depth, bounds, budget=900):
+        return Job(name=name, space=lambda: (None, [], None), harness=harness_src_for(factory), bounds=bounds, budget_s=budget,
+                   cubes_fn=lambda: s2.enum_prefixes(lambda ch: factory(ch).program(), depth), path_timeout_s=30)
+
     js = [
+        Job("reservation-on-construction", space_r, harness_r, bounds={"kinds": RES_KINDS, "indices": RES_IDX, "holders": RES_HOLDERS, "requests": 3}, budget_s=300),
+        srcjob("histories-source-S2-ctl-c2" + ("-d2-t1" if tier == "quick" else "-d3-t2"),
+               (lambda ch: s2.CtlGen(ch, 2, 2, 1)) if tier == "quick" else (lambda ch: s2.CtlGen(ch, 2, 3, 2)), 3,
+               {"space": "source-derived graphs (AST2SCFG over S2-ctl)", "reload_before_stage": [1, 2]}, budget=1200),
         Job("astsmt-obligations", space_a, harness_a, bounds={"kind_length<=": MAXLEN, "index<=": MAXIDX, "methods": METHODS}, budget_s=900, path_timeout_s=120),
         Job("request-sequences-L3", lambda: space_b(3), harness_b, bounds={"length": 3, "kinds": KINDS_B, "types": TYPES_B}, budget_s=600),
         Job("histories-N3", lambda: space_c(3), harness_c, bounds={"blocks": 3, "schemes": len(SCHEMES), "reload_before_stage": [-1, 0, 1, 2]}, budget_s=900),
@@ -437,4 +548,6 @@ def replay(desc):
         return replay_astsmt(desc)
     if desc["kind"] == "sequence":
         return run_sequence([tuple(x) for x in desc["seq"]])[0]
+    if desc["kind"] == "reservation":
+        return run_reservation(desc)
     return run_history(desc)[0]
